@@ -105,13 +105,17 @@ Definition save_then_load (b : backend) (now : Z) (r : report) : res report :=
 End Files.
 
 (* ---------------- which reports the XML backend can carry (boolean, evaluated by the check as well) ---------------- *)
-(* element text: not "", no CR, only XML Chars *)
-Definition text_safe (s : str) : bool := truthy_str s && str_chars_ok s && negb (existsb (N.eqb 13) s).
+(* element text of a mandatory field: no CR, only XML Chars ("" is written as an empty element, read back as None and
+   restored by `text or ""`) *)
+Definition text_safe (s : str) : bool := str_chars_ok s && negb (existsb (N.eqb 13) s).
 (* attribute value: only XML Chars ("" and CR are fine) *)
 Definition attr_safe (s : str) : bool := str_chars_ok s.
-(* optional attribute written under `if x:` : "" is lost *)
+(* optional attribute written under `if x:` (result.status): "" is lost *)
 Definition oattr_safe (o : option str) : bool := match o with Some s => truthy_str s && str_chars_ok s | None => true end.
-Definition otext_safe (o : option str) : bool := match o with Some s => text_safe s | None => true end.
+(* optional attribute written under `if x is not None:` (status_details, link name) *)
+Definition oattr_any (o : option str) : bool := match o with Some s => str_chars_ok s | None => true end.
+(* optional element text read back as it is (check.details): None and "" are the same element *)
+Definition otext_safe (o : option str) : bool := match o with Some s => truthy_str s && text_safe s | None => true end.
 
 Definition log_safe (l : steplog) : bool :=
   match l with
@@ -123,12 +127,12 @@ Definition log_safe (l : steplog) : bool :=
 Definition step_safe (s : step) : bool :=
   attr_safe (st_description s) && is_some (st_start s) && forallb log_safe (st_logs s).
 Definition result_safe (r : result) : bool :=
-  is_some (r_start r) && oattr_safe (r_status r) && oattr_safe (r_status_details r) && forallb step_safe (r_steps r).
+  is_some (r_start r) && oattr_safe (r_status r) && oattr_any (r_status_details r) && forallb step_safe (r_steps r).
 Definition oresult_safe (o : option result) : bool := match o with Some r => result_safe r | None => true end.
 Definition meta_safe (m : meta) : bool :=
   attr_safe (m_name m) && attr_safe (m_description m) && forallb text_safe (m_tags m) &&
   forallb (fun kv => attr_safe (fst kv) && text_safe (snd kv)) (m_properties m) &&
-  forallb (fun l => text_safe (fst l) && oattr_safe (snd l)) (m_links m).
+  forallb (fun l => text_safe (fst l) && oattr_any (snd l)) (m_links m).
 Definition test_safe (t : test_result) : bool := meta_safe (t_meta t) && result_safe (t_result t).
 Fixpoint suite_safe (s : suite_result) : bool :=
   match s with
